@@ -95,8 +95,9 @@ package sstables
 //@   pure
 
 //@ func (SSTableMerger).MergeCompactIterator
-//@   props C11
+//@   props C11 C08
 //@   ensures [fresh-iterator] r1 == nil ==> r0 != nil && itPos(r0) == 0
+//@   ensures [C08:starts-with-the-grouping-invariant] r1 == nil ==> mcRI(asType(*MergeCompactionIterator, r0)) && asType(*MergeCompactionIterator, r0).comp == m.comp
 //@   fresh r0
 //@   modifies inPos(*), itPos(*)
 //@   loop 0
@@ -136,8 +137,18 @@ package sstables
 
 // The merge iterator reports every queue error other than Done, and never reports Done while the queue failed.
 
+// Grouping invariant of the merge iterator: the buffered values and contexts are exactly the last len(valBuf) outputs of the
+// queue, in order, and all of them carry the pending key (the key of the most recent output).
+//@ spec func mcRI(m *MergeCompactionIterator) Bool = 0 <= qPos(m.pq) && len(m.valBuf) <= qPos(m.pq) &&
+//@      (len(m.valBuf) > 0 ==> len(m.ctxBuf) == len(m.valBuf) && m.prevKey === asType(Slice, qKey(m.pq, qPos(m.pq) - 1))) &&
+//@      (len(m.valBuf) == 0 ==> len(m.ctxBuf) == 0 || (qPos(m.pq) > 0 && errIs(qErr(m.pq, qPos(m.pq) - 1), pq.Done))) &&
+//@      (forall t, j :: 0 <= t && t < len(m.valBuf) && j == qPos(m.pq) - len(m.valBuf) + t ==>
+//@         m.valBuf[t] === asType(Slice, qVal(m.pq, j)) && m.ctxBuf[t] == qCtx(m.pq, j) &&
+//@         qErr(m.pq, j) == nil && cmpv(m.comp, content(asType(Slice, qKey(m.pq, j))), content(m.prevKey)) == 0)
+
 //@ func (*MergeCompactionIterator).Next
 //@   props C11 C08
+//@   requires m.pq != nil && m.comp != nil
 //@   replay super_reader_model
 //@   bounded super_reader_model stacked reader and merge vs. reference map: all stacks of <= 2 (quick) / <= 3 (thorough, one third) tables over keys {"", a, b} x {absent, value, tombstone}
 //@   ensures [queue-errors-reported] forall j :: old(qPos(m.pq)) <= j && j < qPos(m.pq) && qErr(m.pq, j) != nil && !errIs(qErr(m.pq, j), pq.Done) ==>
@@ -145,10 +156,24 @@ package sstables
 //@   ensures [done-only-after-queue-done] r2 == Done ==> qPos(m.pq) > old(qPos(m.pq)) &&
 //@           (errIs(qErr(m.pq, qPos(m.pq) - 1), pq.Done) || qErr(m.pq, qPos(m.pq) - 1) == Done)
 //@   modifies qPos(m.pq), m.prevKey, m.valBuf, m.ctxBuf, *
+//@   ensures [C08:grouping-invariant-kept] old(cmpOKb(m.comp) && mcRI(m)) && r2 == nil ==> mcRI(m)
+//@   call 1 of MergeCompactionIterator.reduce: assert [C08:a-finished-group-is-a-whole-run-of-equal-keys] old(cmpOKb(m.comp) && mcRI(m)) ==>
+//@        arg0 === m.prevKey && arg1 === m.valBuf && arg2 === m.ctxBuf && len(m.valBuf) > 0 && len(m.valBuf) + 1 <= qPos(m.pq) &&
+//@        (forall t :: 0 <= t && t < len(m.valBuf) ==>
+//@           m.valBuf[t] === asType(Slice, qVal(m.pq, qPos(m.pq) - 1 - len(m.valBuf) + t)) && m.ctxBuf[t] == qCtx(m.pq, qPos(m.pq) - 1 - len(m.valBuf) + t) &&
+//@           cmpv(m.comp, content(asType(Slice, qKey(m.pq, qPos(m.pq) - 1 - len(m.valBuf) + t))), content(m.prevKey)) == 0) &&
+//@        cmpv(m.comp, content(asType(Slice, qKey(m.pq, qPos(m.pq) - 1))), content(m.prevKey)) != 0
+//@   call 0 of MergeCompactionIterator.reduce: assert [C08:the-last-group-runs-to-the-end-of-the-input] old(cmpOKb(m.comp) && mcRI(m)) ==>
+//@        arg0 === m.prevKey && arg1 === m.valBuf && arg2 === m.ctxBuf && len(m.valBuf) > 0 && len(m.valBuf) + 1 <= qPos(m.pq) &&
+//@        (forall t :: 0 <= t && t < len(m.valBuf) ==>
+//@           m.valBuf[t] === asType(Slice, qVal(m.pq, qPos(m.pq) - 1 - len(m.valBuf) + t)) &&
+//@           cmpv(m.comp, content(asType(Slice, qKey(m.pq, qPos(m.pq) - 1 - len(m.valBuf) + t))), content(m.prevKey)) == 0) &&
+//@        errIs(qErr(m.pq, qPos(m.pq) - 1), pq.Done)
 //@   loop 0
 //@     invariant old(qPos(m.pq)) <= qPos(m.pq)
 //@     invariant forall j :: old(qPos(m.pq)) <= j && j < qPos(m.pq) ==> qErr(m.pq, j) == nil
-//@     invariant m.pq == old(m.pq)
+//@     invariant m.pq == old(m.pq) && m.comp == old(m.comp)
+//@     invariant [C08:grouping-invariant] old(cmpOKb(m.comp) && mcRI(m)) ==> mcRI(m)
 
 // ---------------------------------------------------------------------------------------------------
 // C15: the stream writer accepts strictly ascending keys only; a rejected or failed write leaves the writer's
